@@ -60,8 +60,16 @@ pub struct Cfg {
     pub dyn_generics: bool,
     /// C07: a generic function used as a first-class value (known finding): own stream
     pub generic_fn_values: bool,
+    /// C07: next to the generic inherent impls of the library, inherent impls of single instantiations
+    /// (`impl Bx[int32]`) that define the same method names with other bodies; calls on the exact
+    /// instantiation, on others, through generic functions, nested, and as `Type::m(..)` paths
+    pub overlapping_impls: bool,
     /// C06: matches with nested patterns (tuples, structs, enums, literals) over random data types
     pub nested_patterns: bool,
+    /// C09: the right operand of `&&` / `||` is a "nearly trivial" shape around a printing call
+    /// (field of a returned struct / of a struct literal, tuple projection, `!`, `array_get` of a
+    /// literal array) — must stay unevaluated when the left operand decides
+    pub logic_rhs_shapes: bool,
 }
 
 struct StructD {
@@ -737,13 +745,21 @@ impl<'a> Gen<'a> {
                 1 => {
                     self.feat("logic-and");
                     let a = self.expr(&T::Bool, scope, d, pre);
-                    let b = self.pure_expr(&T::Bool, scope, d);
+                    let b = if self.cfg.logic_rhs_shapes && self.rng.chance(1, 2) {
+                        self.loud_bool_shape()
+                    } else {
+                        self.pure_expr(&T::Bool, scope, d)
+                    };
                     format!("({} && {})", a, b)
                 }
                 2 => {
                     self.feat("logic-or");
                     let a = self.expr(&T::Bool, scope, d, pre);
-                    let b = self.pure_expr(&T::Bool, scope, d);
+                    let b = if self.cfg.logic_rhs_shapes && self.rng.chance(1, 2) {
+                        self.loud_bool_shape()
+                    } else {
+                        self.pure_expr(&T::Bool, scope, d)
+                    };
                     format!("({} || {})", a, b)
                 }
                 3 => {
@@ -792,7 +808,8 @@ impl<'a> Gen<'a> {
                     match self.rng.below(4) {
                         0 => format!("Show::show({})", tv),
                         1 => format!("show_twice({})", tv),
-                        2 => {
+                        // (an instance of a generic type behind `dyn` does not reach its impl: C17's finding)
+                        2 if !matches!(st, T::Bx(_) | T::Opt(_)) => {
                             self.feat("dyn-call");
                             let v = self.fresh("dy");
                             write!(pre, "let {}: dyn Show = {}; ", v, tv).unwrap();
@@ -963,6 +980,21 @@ impl<'a> Gen<'a> {
                 (*self.rng.pick(&vars)).clone()
             }
             _ => self.leaf(t, scope, pre),
+        }
+    }
+
+    /// a boolean operand that prints when (and only when) it is evaluated, inside a shape that a
+    /// shallow purity test may take for trivial
+    fn loud_bool_shape(&mut self) -> String {
+        self.feat("logic-rhs-shape");
+        let tag = self.fresh("rhs");
+        let v = if self.rng.chance(1, 2) { "true" } else { "false" };
+        match self.rng.below(5) {
+            0 => format!("lb_mk(\"{}\", {}).v", tag, v),
+            1 => format!("Lb {{ v: lb_say(\"{}\", {}) }}.v", tag, v),
+            2 => format!("lb_pair(\"{}\", {}).0", tag, v),
+            3 => format!("(!lb_say(\"{}\", {}))", tag, v),
+            _ => format!("array_get([lb_say(\"{}\", {})], 0)", tag, v),
         }
     }
 
@@ -1310,6 +1342,14 @@ impl<'a> Gen<'a> {
                     let a = self.expr(u, scope, d, pre);
                     return Some(format!("vsingle({})", a));
                 }
+                T::I32 if self.cfg.overlapping_impls && self.rng.chance(1, 4) => {
+                    self.feat("g-overlap-only-exact");
+                    let bt = T::Bx(Box::new(T::I32));
+                    let a = self.expr(&bt, scope, d, pre);
+                    let v = self.fresh("ov");
+                    write!(pre, "let {}: {} = {}; ", v, self.ty_text(&bt), a).unwrap();
+                    return Some(format!("{}.only_int()", v));
+                }
                 T::I32 => {
                     if self.cfg.vec_generics && self.rng.chance(1, 2) {
                         self.feat("g-vlen");
@@ -1321,6 +1361,57 @@ impl<'a> Gen<'a> {
                     let u = self.rich_ty(1);
                     let l = self.expr(&T::Lst(Box::new(u)), scope, d, pre);
                     return Some(format!("llen({})", l));
+                }
+                T::Str if self.cfg.overlapping_impls && self.rng.chance(1, 2) => {
+                    // a method that a generic impl and impls of single instantiations both define
+                    return Some(match self.rng.below(8) {
+                        0..=3 => {
+                            self.feat("g-overlap-method");
+                            let u = match self.rng.below(6) {
+                                0 | 1 => T::I32,
+                                2 => T::Str,
+                                3 => T::Bx(Box::new(T::I32)),
+                                4 => T::Bx(Box::new(T::Bool)),
+                                _ => self.rich_ty(1),
+                            };
+                            let bt = T::Bx(Box::new(u));
+                            let a = self.expr(&bt, scope, d, pre);
+                            let v = self.fresh("ov");
+                            write!(pre, "let {}: {} = {}; ", v, self.ty_text(&bt), a).unwrap();
+                            match self.rng.below(5) {
+                                0 | 1 => format!("{}.tag()", v),
+                                2 => format!("tag_of({})", v),
+                                3 => format!("Bx::tag({})", v),
+                                _ => {
+                                    if bt == T::Bx(Box::new(T::I32)) { format!("tag_of_int({})", v) } else { format!("{}.tag()", v) }
+                                }
+                            }
+                        }
+                        4 | 5 => {
+                            self.feat("g-overlap-enum-method");
+                            let u = if self.rng.chance(1, 2) { T::Bool } else { self.rich_ty(1) };
+                            let ot = T::Opt(Box::new(u));
+                            let a = self.expr(&ot, scope, d, pre);
+                            let v = self.fresh("ov");
+                            write!(pre, "let {}: {} = {}; ", v, self.ty_text(&ot), a).unwrap();
+                            match self.rng.below(3) {
+                                0 => format!("{}.kind()", v),
+                                1 => format!("kind_of({})", v),
+                                _ => format!("Opt::kind({})", v),
+                            }
+                        }
+                        _ => {
+                            self.feat("g-overlap-swap");
+                            // `swap` of exactly Pr[int32, string] is the exact impl (appends "!"), of others the generic one
+                            let first = if self.rng.chance(2, 3) { T::I32 } else { T::Bool };
+                            let pt = T::Pr(Box::new(first.clone()), Box::new(T::Str));
+                            let a = self.expr(&pt, scope, d, pre);
+                            let (v, w) = (self.fresh("ov"), self.fresh("ov"));
+                            write!(pre, "let {}: {} = {}; let {}: {} = {}.swap(); ", v, self.ty_text(&pt), a, w,
+                                self.ty_text(&T::Pr(Box::new(T::Str), Box::new(first))), v).unwrap();
+                            format!("{}.a", w)
+                        }
+                    });
                 }
                 T::Str if self.cfg.traits => {
                     let st = if !self.cur_bounded.is_empty() && self.rng.chance(1, 2) {
@@ -1536,6 +1627,7 @@ fn unnest[T](o: Opt[Opt[T]], d: T) -> T { opt_or(opt_or(o, Opt::Som(d)), d) }
 impl[T] Bx[T] {
     fn get(self: Bx[T]) -> T { self.v }
     fn set(self: Bx[T], x: T) -> Bx[T] { Bx { v: x } }
+    fn tag(self: Bx[T]) -> string { "bx" }
 }
 impl[A, B] Pr[A, B] {
     fn new(a: A, b: B) -> Pr[A, B] { Pr { a: a, b: b } }
@@ -1543,6 +1635,26 @@ impl[A, B] Pr[A, B] {
 }
 "#,
         );
+        if self.cfg.overlapping_impls {
+            // a generic inherent impl AND inherent impls of single instantiations that define the same
+            // method names with bodies that print something else (the typer: the exact impl wins for a
+            // receiver of exactly that type; generic code and `Type::m(..)` paths take the generic impl)
+            src.push_str(
+                r#"impl Bx[int32] {
+    fn tag(self: Bx[int32]) -> string { "bx-int " + int32_to_string(self.v) }
+    fn only_int(self: Bx[int32]) -> int32 { self.v + 1 }
+}
+impl Bx[string] { fn tag(self: Bx[string]) -> string { "bx-str " + self.v } }
+impl Bx[Bx[int32]] { fn tag(self: Bx[Bx[int32]]) -> string { let inner: Bx[int32] = self.v; "bx-bx " + inner.tag() } }
+impl[T] Opt[T] { fn kind(self: Opt[T]) -> string { match self { Opt::Som(_) => "som", Opt::Non => "non" } } }
+impl Opt[bool] { fn kind(self: Opt[bool]) -> string { match self { Opt::Som(b) => "som-" + bool_to_string(b), Opt::Non => "non-bool" } } }
+impl Pr[int32, string] { fn swap(self: Pr[int32, string]) -> Pr[string, int32] { Pr { a: self.b + "!", b: self.a + 1 } } }
+fn tag_of[T](b: Bx[T]) -> string { b.tag() }
+fn tag_of_int(b: Bx[int32]) -> string { b.tag() }
+fn kind_of[U](o: Opt[U]) -> string { o.kind() }
+"#,
+            );
+        }
         if self.cfg.vec_generics {
             src.push_str(
                 r#"fn vsingle[T](x: T) -> Vec[T] { let v: Vec[T] = vec_new(); vec_push(v, x) }
@@ -1752,6 +1864,12 @@ fn show_lst[T: Show](l: Lst[T]) -> string { match l { Lst::Nil => ".", Lst::Cons
         if self.cfg.generics {
             writeln!(src, "enum Opt[T] {{ Non, Som(T) }}").unwrap();
             writeln!(src, "fn pick[T](c: bool, a: T, b: T) -> T {{ if c {{ a }} else {{ b }} }}").unwrap();
+        }
+        if self.cfg.logic_rhs_shapes {
+            writeln!(src, "struct Lb {{ v: bool }}").unwrap();
+            writeln!(src, "fn lb_say(s: string, v: bool) -> bool {{ let _ = string_println(s); v }}").unwrap();
+            writeln!(src, "fn lb_mk(s: string, v: bool) -> Lb {{ let _ = string_println(s); Lb {{ v: v }} }}").unwrap();
+            writeln!(src, "fn lb_pair(s: string, v: bool) -> (bool, int32) {{ let _ = string_println(s); (v, 0) }}").unwrap();
         }
         if self.cfg.traits {
             writeln!(src, "trait Show {{ fn show(Self) -> string; }}").unwrap();
